@@ -343,7 +343,7 @@ pub fn handle_warmup(op: &Op) -> Vec<Op> {
 }
 
 fn fault_cfg(th: bool) -> FaultCfg {
-    FaultCfg { all_syscalls: th, per_class: if th { 7 } else { 3 }, eagain_runs: vec![15, 16, 17], exhaustion: true, custom: None }
+    FaultCfg { all_syscalls: th, per_class: if th { 7 } else { 2 }, eagain_runs: if th { vec![15, 16, 17] } else { vec![15, 16] }, exhaustion: true, custom: None }
 }
 
 pub fn items(prop: &str, tier: &str) -> Vec<Item> {
@@ -380,12 +380,15 @@ pub fn items(prop: &str, tier: &str) -> Vec<Item> {
         }
         "C10" => {
             let mut scens: Vec<Scenario> = Vec::new();
-            scens.extend(lookup_scenarios(th).into_iter().step_by(if th { 1 } else { 3 }));
-            scens.extend(mutating_scenarios(th).into_iter().step_by(if th { 1 } else { 2 }));
-            scens.extend(handle_scenarios(th).into_iter().step_by(if th { 1 } else { 2 }));
+            scens.extend(lookup_scenarios(th).into_iter().step_by(if th { 1 } else { 5 }));
+            scens.extend(mutating_scenarios(th).into_iter().step_by(if th { 1 } else { 3 }));
+            scens.extend(handle_scenarios(th).into_iter().step_by(if th { 1 } else { 3 }));
             for s in scens.clone() { v.push(item(s, Plan::Fault { bound: 1, cfg: fault_cfg(th) }, if th { 40_000 } else { 4_000 })); }
             // first-use initialisation of the internal procfs handle: cold lazies
-            for s in scens.into_iter().step_by(if th { 3 } else { 8 }) {
+            // (always including lookups through symlinks on the emulated backend: they read fs.protected_symlinks on first use)
+            let mut cold: Vec<Scenario> = scens.iter().step_by(if th { 3 } else { 9 }).cloned().collect();
+            cold.extend(lookup_scenarios(false).into_iter().filter(|s| s.backend == "E" && s.op.name == "resolve" && (s.path == "a/b/lnk/f" || s.path == "abs/c/d")));
+            for s in cold {
                 let mut it = item(s, Plan::Fault { bound: 1, cfg: fault_cfg(th) }, if th { 40_000 } else { 4_000 });
                 it.warm = false;
                 it.scen.name = format!("cold:{}", it.scen.name);
@@ -732,7 +735,12 @@ fn judge(prop: &str, it: &Item, scen: &Scenario, w: &World, eo: &ExecOut, counts
     }
     if matches!(prop, "C02" | "C03" | "C10") {
         if eo.timeout || eo.horizon_hit { v.push(("hang".into(), format!("did not terminate within the horizon (timeout={}, horizon={})", eo.timeout, eo.horizon_hit))); return Ok(v); }
-        if died { v.push((format!("crash:sig{:?}", eo.killed.first().cloned().flatten()), format!("worker died: {}", outcome_text(w, eo, 0)))); return Ok(v); }
+        if died {
+            // class of the crash: signal, entry point, cold/warm lazies, kind of the injected deviation
+            let dev = eo.faults.first().map(|(_, f)| if f.starts_with("EAGAIN") { "EAGAIN".to_string() } else { f.clone() }).or_else(|| eo.applied.first().map(|_| "attack".to_string())).unwrap_or_else(|| "none".into());
+            v.push((format!("crash:sig{}:{}{}:{}", eo.killed.first().cloned().flatten().unwrap_or(0), if scen.op.api == "c" { "capi" } else { "rust" }, if it.warm { "" } else { "-cold" }, dev), format!("worker died: {}", outcome_text(w, eo, 0))));
+            return Ok(v);
+        }
         if let Some(p) = &panic { v.push((format!("panic:{}", site(p)), format!("panic: {}", p))); return Ok(v); }
         let o = obs.unwrap();
         if o.ok {
@@ -797,6 +805,9 @@ pub fn run_item(prop: &str, tier: &str, idx: usize, only: Option<&Value>) -> MRe
         let cfg = ExecCfg { specs, mode, root_out: out(ROOT_IN), horizon: 300_000, timeout_s: 60, attack_procfs: prop_is_c06 };
         let eo = execute(&cfg, ch)?;
         let otext = (0..nworkers).map(|i| outcome_text(&w, &eo, i)).collect::<Vec<_>>().join(" || ");
+        if ch.trace.len() < ch.forced_len() {
+            eprintln!("SHORT EXECUTION in {}: {} of {} forced choices consumed; events={} timeout={} horizon={} outcome={} exit={:?} killed={:?} last_events={:?}", scen.name, ch.trace.len(), ch.forced_len(), eo.events.len(), eo.timeout, eo.horizon_hit, otext, eo.exit, eo.killed, eo.events.iter().rev().take(3).map(|e| e.brief()).collect::<Vec<_>>());
+        }
         if std::env::var("VMC_DEBUG").is_ok() {
             use std::io::Write;
             if let Ok(mut f) = std::fs::OpenOptions::new().create(true).append(true).open(format!("/verif/.build/debug-{}.log", std::process::id())) {
@@ -937,7 +948,7 @@ pub fn report(prop: &str, tier: &str) -> Report {
         },
         "C10" => Report {
             level: "fault_enumeration",
-            rule: format!("{} scenarios; for every syscall index i of the scenario's trace ({}) and every errno of the class catalogue (first {} per class) one execution with that single fault injected at i (ptrace: syscall skipped, -errno returned), plus EAGAIN x{{15,16,17}} runs on openat2 and descriptor exhaustion from i on; cold variants include first-use initialisation of the procfs handle; distinct = distinct (scenario, index, fault)", nscen, if th { "every syscall" } else { "path-taking and descriptor-creating syscalls" }, if th { 7 } else { 3 }),
+            rule: format!("{} scenarios; for every syscall index i of the scenario's trace ({}) and every errno of the class catalogue (first {} per class; thorough: the full catalogue) one execution with that single fault injected at i (ptrace: syscall skipped, -errno returned), plus EAGAIN x{{15,16,17}} runs on openat2 and descriptor exhaustion from i on; cold variants include first-use initialisation of the procfs handle; distinct = distinct (scenario, index, fault)", nscen, if th { "every syscall" } else { "path-taking and descriptor-creating syscalls" }, if th { 7 } else { 2 }),
             assumptions: common, exhaustive: true, extra: json!({"scenarios": nscen}),
         },
         "C08" => Report {
